@@ -83,7 +83,7 @@ def run_C05(tier, seed, t0):
     gap_bits = 23 if tier == 'thorough' else 22
     specs = []
     for name in ALL:
-        for d in (['fwd', 'bwd', 'ctx', 'abs'] if name in LABELLED else ['-']):
+        for d in (['fwd', 'bwd', 'ctx', 'abs'] if name in LABELLED else (['-', 'fwd', 'bwd'] if name == 'li' else ['-'])):
             for c in (False, True):
                 specs.append(('harness.pseudo', 'pseudo_task', (name, d, c, li_bits, gap_bits)))
     res = pmap(specs)
@@ -160,7 +160,11 @@ def _run_layout(prop, tier, seed, t0, extra_specs=(), extra_bounds=None):
 
 
 def run_C03(tier, seed, t0):
-    return _run_layout('C03', tier, seed, t0)
+    # the labels argument: a dictionary that already holds the labels of an earlier program
+    from .purity import SEQS
+    extra = [('harness.purity', 'sequence_task', (i, 'shared-dicts', 'C03')) for i, q in enumerate(SEQS)
+             if q[0] in ('ok_then_ok', 'same_names', 'compress_then_plain')]
+    return _run_layout('C03', tier, seed, t0, extra, dict(labels_argument='three two-call histories that pass the same labels dictionary to both calls'))
 
 
 def run_C08(tier, seed, t0):
@@ -313,12 +317,16 @@ def run_C15(tier, seed, t0):
 def run_C16(tier, seed, t0):
     from .purity import PROGRAMS, SEQS
     specs = [('harness.purity', 'frame_task', (i, c)) for i in range(len(PROGRAMS)) for c in (False, True)]
-    specs += [('harness.purity', 'sequence_task', (i, m)) for i in range(len(SEQS)) for m in ('fresh', 'first-dicts')]
+    specs += [('harness.purity', 'sequence_task', (i, m)) for i in range(len(SEQS)) for m in ('fresh', 'first-dicts', 'no-dicts')]
+    # the same dictionary objects for both calls: only where the second program defines every name it
+    # uses (what the caller leaves in a dictionary it passes again is otherwise a legitimate input)
+    specs += [('harness.purity', 'sequence_task', (i, 'shared-dicts')) for i, q in enumerate(SEQS)
+              if q[0] in ('ok_then_ok', 'fail_then_ok', 'same_names', 'compress_then_plain')]
     specs += [('harness.purity', 'incdirs_task', (s,)) for s in ('B', 'C')]
     res = pmap(specs)
     return finish('C16', tier, seed, res, t0,
                   bounds=dict(frame='%d symbolic programs x 2 modes: after every path (failing ones included) the structural fingerprint of everything reachable from the module (tables, partials, class dicts, function defaults, closures) is unchanged and holds no symbolic value' % len(PROGRAMS),
-                              sequences='%d two-call histories x 2 dictionary-passing modes: second result compared with the result of the second program alone for all values of both programs\' independent symbols (product query); plus two projects assembled with one shared include_dirs list over a virtual file system (the caller\'s list must be unchanged, the second project\'s result must not depend on the first)' % len(SEQS)),
+                              sequences='%d two-call histories x 4 dictionary-passing modes (fresh, dictionaries to the first call only, no dictionaries at all, the same dictionary objects for both calls): second result compared with the result of the second program alone for all values of both programs\' independent symbols (product query); plus two projects assembled with one shared include_dirs list over a virtual file system (the caller\'s list must be unchanged, the second project\'s result must not depend on the first)' % len(SEQS)),
                   stubs=STUBS_ASM,
                   assumptions=['inductive step: if one call from the import-time state leaves the state unchanged, histories of any length do'] + STUBS_ASM,
                   outside=['PYTHONHASHSEED independence (needs separate processes; no solver formulation)', 'state outside the asm module (logging configuration, os)'])
@@ -329,7 +337,7 @@ def run_C17(tier, seed, t0):
     combos = [(pg, av) for pg in PROGRAMS for av in ARGVS]
     if tier != 'thorough':
         keep = {('range', a) for a in ARGVS} | {(pg, 'o_l') for pg in PROGRAMS} | {(pg, 'l_hex') for pg in PROGRAMS} | \
-               {('data', 'o_hex_bad'), ('li_label', 'hex_bad_l'), ('range', 'hex_sym'), ('li_label', 'hex_sym_l'), ('nolabels', 'defs_v'), ('nolabels', 'hex_sym_l'), ('ok_only', 'hex_sym'), ('included', 'i_dir'), ('ok_only', 'defs_v'), ('parse', 'i_bad'), ('li_label', 'default')}
+               {('data', 'o_hex_bad'), ('li_label', 'hex_bad_l'), ('range', 'hex_sym'), ('li_label', 'hex_sym_l'), ('nolabels', 'defs_v'), ('nolabels', 'hex_sym_l'), ('needs_i', 'i_two'), ('needs_i', 'i_two_dup'), ('needs_i', 'i_dir'), ('needs_i', 'default'), ('ok_only', 'hex_sym'), ('included', 'i_dir'), ('ok_only', 'defs_v'), ('parse', 'i_bad'), ('li_label', 'default')}
         combos = [c for c in combos if c in keep]
     specs = [('harness.cli', 'cli_task', c) for c in combos]
     res = pmap(specs)
@@ -375,12 +383,12 @@ def run_C18(tier, seed, t0):
 
 
 def run_C19(tier, seed, t0):
-    K = 2 if tier == 'thorough' else 1
+    K = 8 if tier == 'thorough' else 5
     specs = [('harness.dfu', 'dfu_task', ('C19', 'oversize', 'sym', 0, None, 'one'))]
     for v in range(4):
         for extra in (1, 2, 511, 1023, 1024, 1025):
             specs.append(('harness.dfu', 'dfu_task', ('C19', 'capacity+%d' % extra, v, 0, None, 'one')))
-    for L in ([1, 1024, 1025, 2049] if tier != 'thorough' else [1, 2, 1023, 1024, 1025, 2048, 2049, 3072, 3073]):
+    for L in ([1, 1025] if tier != 'thorough' else [1, 2, 1023, 1024, 1025, 2048, 2049, 3072, 3073]):
         specs.append(('harness.dfu', 'dfu_task', ('C19', L, L % 4, K, 'single', 'one')))
     res = pmap(specs)
     return finish('C19', tier, seed, res, t0,
